@@ -19,6 +19,7 @@ import (
 	"encoding/json"
 	"fmt"
 	"strings"
+	"sync"
 	"time"
 
 	"github.com/attestantio/go-block-relay/services/blockauctioneer"
@@ -364,8 +365,17 @@ func (s *Service) unblindProposal(ctx context.Context,
 	// Every relay can deliver its block without waiting for a receiver: only the first block is
 	// read, and the goroutines of the other relays must be able to finish.
 	respCh := make(chan *api.VersionedSignedProposal, len(providers))
+	// Closed once every relay has finished, with or without a block.
+	finishedCh := make(chan struct{})
+	var wg sync.WaitGroup
+	wg.Add(len(providers))
+	go func() {
+		wg.Wait()
+		close(finishedCh)
+	}()
 	for _, provider := range providers {
 		go func(ctx context.Context, provider builderclient.UnblindedProposalProvider, ch chan *api.VersionedSignedProposal) {
+			defer wg.Done()
 			log := s.log.With().Str("provider", provider.Address()).Logger()
 			log.Trace().Msg("Unblinding block with provider")
 
@@ -417,32 +427,43 @@ func (s *Service) unblindProposal(ctx context.Context,
 		}(ctx, provider, respCh)
 	}
 
+	var signedBlock *api.VersionedSignedProposal
 	select {
 	case <-ctx.Done():
 		s.log.Warn().Msg("Failed to obtain unblinded block")
 		return errors.New("failed to obtain unblinded block")
-	case signedBlock := <-respCh:
-		if e := s.log.Trace(); e.Enabled() {
-			data, err := json.Marshal(signedBlock)
-			if err == nil {
-				e.RawJSON("signed_block", data).Msg("Recomposed block to submit")
-			}
-		}
-		switch proposal.Version {
-		case spec.DataVersionBellatrix:
-			proposal.BellatrixBlinded = nil
-			proposal.Bellatrix = signedBlock.Bellatrix
-		case spec.DataVersionCapella:
-			proposal.CapellaBlinded = nil
-			proposal.Capella = signedBlock.Capella
-		case spec.DataVersionDeneb:
-			proposal.DenebBlinded = nil
-			proposal.Deneb = signedBlock.Deneb
+	case signedBlock = <-respCh:
+	case <-finishedCh:
+		// Every relay has finished; without this we would wait for the context, which need not
+		// have a deadline.  A block may still have been delivered just beforehand.
+		select {
+		case signedBlock = <-respCh:
 		default:
-			return fmt.Errorf("unsupported version %v", proposal.Version)
+			s.log.Warn().Msg("No relay unblinded the block")
+			return errors.New("failed to obtain unblinded block from any relay")
 		}
-		proposal.Blinded = false
-
-		return nil
 	}
+
+	if e := s.log.Trace(); e.Enabled() {
+		data, err := json.Marshal(signedBlock)
+		if err == nil {
+			e.RawJSON("signed_block", data).Msg("Recomposed block to submit")
+		}
+	}
+	switch proposal.Version {
+	case spec.DataVersionBellatrix:
+		proposal.BellatrixBlinded = nil
+		proposal.Bellatrix = signedBlock.Bellatrix
+	case spec.DataVersionCapella:
+		proposal.CapellaBlinded = nil
+		proposal.Capella = signedBlock.Capella
+	case spec.DataVersionDeneb:
+		proposal.DenebBlinded = nil
+		proposal.Deneb = signedBlock.Deneb
+	default:
+		return fmt.Errorf("unsupported version %v", proposal.Version)
+	}
+	proposal.Blinded = false
+
+	return nil
 }
